@@ -92,6 +92,9 @@ type Case struct {
 	Rng   *rand.Rand
 	col   *Collector
 	Replay bool // true when re-running a recorded case: families may print more
+	// Mute turns Violate into a counter: used when a scenario family runs only as a workload
+	// under the race detector (C19) and its own oracle belongs to another property.
+	Mute bool
 }
 
 func SeedFor(prop, tier string, seed int64, index int) int64 {
@@ -119,6 +122,10 @@ func (k *Case) Violate(key, what string, detail interface{}) {
 }
 
 func (k *Case) ViolateProp(prop, key, what string, detail interface{}) {
+	if k.Mute {
+		k.Count("findings_of_other_properties_muted", 1)
+		return
+	}
 	v := Violation{Property: prop, Key: key, What: what, Tier: k.Tier, Seed: k.Seed, Case: k.Index, Detail: detail}
 	c := k.col
 	c.mu.Lock()
